@@ -506,6 +506,20 @@ def text_grid(chk):
             {"name": "LOCATION", "params": [{"name": "LANGUAGE", "tms": [{"text": t.replace("ß", "ss"), "coll": None, "neg": False}]}]}]}]})
     run_batch(chk, members, filters, "text-grid")
     chk.count("text_grid_filters", len(filters))
+    # white space is significant in TEXT values and in the text of a text-match: values and patterns
+    # that differ only in leading / trailing / inner blanks
+    blanks = ["Lunch", " Lunch", "Lunch ", " Lunch ", "Lun ch", "Lun  ch"]
+    members = [("w%02d.ics" % i, ical([{"type": "VEVENT", "lines": ["UID:w%d" % i, "SUMMARY:" + v, "DTSTART" + tval(0, "utc"),
+                                                                   "DESCRIPTION:x" + v + "x"]}]))
+               for i, v in enumerate(blanks)]
+    filters = []
+    for t in blanks:
+        for coll in (None, "i;octet"):
+            for neg in (False, True):
+                filters.append({"name": "VCALENDAR", "comps": [{"name": "VEVENT", "props": [
+                    {"name": "SUMMARY", "tms": [{"text": t, "coll": coll, "neg": neg}]}]}]})
+    run_batch(chk, members, filters, "text-grid-blanks")
+    chk.count("text_grid_filters", len(filters))
 
 
 def known_finding_probe(chk):
